@@ -69,6 +69,9 @@ type walkLoop struct {
 	container ssa.Value  // the bytes walked
 	stride    ssa.Value  // amount added per iteration
 	form      string
+	// strideAVP: the AVP value the stride expression refers to when it lives in a re-slicing helper (that
+	// helper's *AVP parameter, bound to avp at the call)
+	strideAVP ssa.Value
 }
 
 // avpDecodeCall classifies a call as "decodes one AVP from bytes": a library function of package diam that
@@ -160,6 +163,44 @@ func (c *Ctx) walkLoops() ([]*walkLoop, []string) {
 							if rs, ok := e.(*ssa.Slice); ok && rs.X == ssa.Value(ph) && rs.High == nil {
 								w.stride, w.form, w.container = rs.Low, "re-slicing b = b[k:]", ph
 							}
+							// b = rest(b, a): a helper that returns b[k:] of its byte parameter (or nil at the end)
+							if hc, ok := e.(*ssa.Call); ok {
+								h := flow.StaticCallee(hc)
+								if h == nil || h.Blocks == nil || !c.P.IsLibrary(h) {
+									continue
+								}
+								var hb, ha *ssa.Parameter
+								for j, a := range hc.Call.Args {
+									if j >= len(h.Params) {
+										continue
+									}
+									if a == ssa.Value(ph) {
+										hb = h.Params[j]
+									}
+									if a == av {
+										ha = h.Params[j]
+									}
+								}
+								if hb == nil || ha == nil {
+									continue
+								}
+								var low ssa.Value
+								okShape := true
+								for _, rv := range flow.ReturnValues(h, 0) {
+									if flow.IsNilConst(rv) {
+										continue
+									}
+									rs, isSl := rv.(*ssa.Slice)
+									if !isSl || rs.X != ssa.Value(hb) || rs.High != nil || rs.Low == nil || low != nil && low != rs.Low {
+										okShape = false
+										continue
+									}
+									low = rs.Low
+								}
+								if okShape && low != nil {
+									w.stride, w.form, w.container, w.strideAVP = low, "re-slicing through "+h.Name()+": b = b[k:]", ph, ha
+								}
+							}
 						}
 					}
 				}
@@ -240,7 +281,7 @@ func runC04(c *Ctx) {
 					return false
 				}
 				tn, fld, base, ok := flow.FieldOf(u)
-				return ok && tn == "AVP" && fld == "Length" && base == w.avp
+				return ok && tn == "AVP" && fld == "Length" && (base == w.avp || w.strideAVP != nil && base == w.strideAVP)
 			},
 			Callee: func(call *ssa.Call) *ssa.Function {
 				g := flow.StaticCallee(call)
